@@ -14,7 +14,9 @@ LEVEL_TEXT = ("Constraint graphs are generated as edge/hyper-edge lists: random 
               "node per variable; parent/children and pseudo-parent/pseudo-children links are mutually consistent; "
               "following parents terminates, with exactly one root per connected component; every constraint-sharing "
               "pair is in ancestor/descendant relation and directly linked by a tree or back edge; each node carries "
-              "exactly the constraints on its variable; construction does not raise. Sizes are sampled, not swept.")
+              "exactly the constraints on its variable; construction does not raise. The builder runs on an "
+              "empty stack with the default recursion limit; a quarter of the small cases give every constraint "
+              "Variable objects of its own. Sizes are sampled, not swept.")
 LEVEL_NOTE = "Trusted: the structural oracle in this file. All variables share one 2-value domain (irrelevant here)."
 RULE = ("case = graph shape + size + edge list; non-trivial = >=4 variables with a cycle in the constraint graph (a "
         "back edge must exist) or a chain of >=200 variables; distinct by sha1(case)")
